@@ -197,6 +197,7 @@ RENDERERS = [("QueryBuilder", "_with_sql"), ("QueryBuilder", "_select_sql"), ("Q
 
 
 def pagination_guards():
+    """informative only (pagination is C12's subject; no C04 lemma depends on it): guards are printed as source text"""
     tree = ast.parse(_src())
     fn = _method(tree, "QueryBuilder", "_apply_pagination")
     out = []
@@ -205,7 +206,7 @@ def pagination_guards():
             cs = _calls_in(s)
             if len(cs) != 1 or s.orelse:
                 raise RuntimeError("_apply_pagination: branch not understood")
-            out.append((_guard(s.test), cs[0]))
+            out.append((ast.unparse(s.test), cs[0]))
         elif isinstance(s, ast.Return):
             if not (isinstance(s.value, ast.Name) and s.value.id == fn.args.args[1].arg):
                 raise RuntimeError("_apply_pagination: return not understood")
